@@ -43,5 +43,6 @@ func init() {
 		pool := workerPool(r, 4)
 		defer pool.Close()
 		bigRoots(r, pool)
+		longLinesAndBlocks(r, pool)
 	})
 }
